@@ -627,6 +627,30 @@ def case_ugrid(ctx, case, sc):
     g = judge(ctx, case, exp, lambda: ux.open_grid(src), mt, expect_n_node=n, source=source, centres=fc, edge_centres=ec)
     if g is None:
         return
+    # supplied tables are presented on the standard dimensions: an edge table makes n_edge available, and
+    # every carried table's row dimension is the standard one of its element kind
+    if any(nme.startswith("edge_") for nme in opt):
+        n_edges_src = len(edges_of(faces)[0])
+        try:
+            ne = int(g.n_edge)
+            if ne != n_edges_src:
+                ctx.fail("C01/ugrid/carried/n_edge", f"ugrid: n_edge {ne} differs from the {n_edges_src} rows of the supplied edge tables", case)
+        except Exception as e:
+            ctx.fail("C01/ugrid/carried/n_edge/raises/" + ("with" if ec is not None else "without") + "-edge-coordinates",
+                     f"ugrid: the source supplies edge tables ({', '.join(x for x in opt if x.startswith('edge_'))}) "
+                     f"{'with' if ec is not None else 'WITHOUT'} edge coordinates and grid.n_edge raises {type(e).__name__}: {str(e)[:80]}",
+                     case, None, None, ["carried_dimensions"])
+    for name, o in opt.items():
+        want_dim = {"edge": "n_edge", "face": "n_face", "node": "n_node"}[name.split("_")[0]]
+        try:
+            got_dim = getattr(g, name).dims[0]
+        except Exception:
+            got_dim = None
+        if got_dim is not None:
+            ctx.hit("carried-dims-checked")
+            if got_dim != want_dim:
+                ctx.fail(f"C01/ugrid/carried/row-dimension/{name.split('_')[0]}",
+                         f"ugrid: supplied {name} is carried on dimension {got_dim!r}, not on the standard {want_dim!r}", case, None, None, ["carried_dimensions"])
     for name, o in opt.items():
         t = o["t"]
         tcls = f"start={t['base'] if t['declared'] else 'absent'}"
@@ -1858,6 +1882,13 @@ def run_file(ctx, kind, rel, opt):
 
     ctx.hit("sample-file")
     g = judge(ctx, case, exp, open_fn, None, expect_n_node=n)
+    if kind == "ugrid" and g is not None and any(k in g._ds for k in ("edge_node_connectivity", "edge_face_connectivity")):
+        try:
+            int(g.n_edge)
+            ctx.hit("sample-file:n_edge-available")
+        except Exception as e:
+            ctx.fail("C01/ugrid/carried/n_edge/raises/file=" + os.path.basename(rel),
+                     f"ugrid sample file supplies edge tables and grid.n_edge raises {type(e).__name__}: {str(e)[:80]}", case, None, None, ["carried_dimensions"])
     if kind == "mpas" and g is not None:
         # every table / array the file supplies, entry by entry, against the Lean decoders on the raw file
         raw = _raw(path)
